@@ -82,6 +82,16 @@ def gen_requests(rng, n, threads=False):
     while len(reqs) < n:
         cls = rng.choice(["plain", "plain", "plain", "scaled", "scaled", "solid", "rot", "fill", "blt", "wideop"])
         seed = rng.randrange(1, 2 ** 31)
+        if threads and rng.random() < 0.12:
+            # very wide general-path composites: the scanline scratch no longer fits the stack buffer
+            # (2048 pixels narrow, 512 float) and is allocated per call
+            fl = rng.random() < 0.5
+            dw = rng.choice([600, 777]) if fl else rng.choice([2100, 2500])
+            op = rng.choice([0x13, 0x36, 0x0d, 0x2b]) if fl else rng.choice([3, 9, 11, 5])
+            sf = F[rng.choice(["r5g6b5", "a4r4g4b4", "a1r5g5b5"])]
+            reqs.append(creq(op, sf, dw + 4, 2, 0, 0, IDENT, F["a8"], dw + 4, 2, 0, 0, F[rng.choice(["r5g6b5", "a4r4g4b4"])],
+                             dw, 1, 1, 0, 2, 0, 0, 0, dw, 1, seed, 0, 0))
+            continue
         # working-set behaviour: re-issue one of the last requests with other pixel contents, so that the
         # fast path cache sees hits at every depth, move-to-front and eviction
         if recent and rng.random() < 0.45:
@@ -172,6 +182,86 @@ def gen_requests(rng, n, threads=False):
     return reqs
 
 
+def table_directed_requests(rng, exe, wd, configs):
+    """One group of requests per fast path table entry of the running library (all implementations, all
+       configurations): the driver is run with an empty script to obtain the Tables dump, and for every entry with
+       concrete formats requests are generated whose operator and formats equal the entry's, in the geometric
+       variants the entry's flags may call for (untransformed, scaled nearest, scaled bilinear, rotated; each repeat
+       mode), with and without a solid source / solid mask.  Whether a request really reaches the entry is decided
+       by the library; the Lookup events say which entry served it."""
+    import json
+    keys = set()
+    for ci, dis in enumerate(configs):
+        empty = os.path.join(wd, "empty.script")
+        open(empty, "w").write("")
+        tr = os.path.join(wd, "tables%d.ndjson" % ci)
+        run_config(exe, empty, tr, dis)
+        for line in open(tr):
+            if line.startswith('{"e":"Tables"'):
+                t = json.loads(line)
+                anyf = t["any_fmt"]
+                for imp in t["imps"]:
+                    for e in imp:
+                        if e["op"] >= 0x3f:
+                            continue
+                        keys.add((e["op"], tuple(e["sf"]), tuple(e["mf"]), tuple(e["df"]), 23 in e["sfl"] or 24 in e["sfl"],
+                                  11 in e["sfl"], 19 in e["sfl"], 20 in e["sfl"] or 21 in e["sfl"] or 22 in e["sfl"]))
+    code = lambda hl: (hl[0] << 16) | hl[1]
+    PIXBUF, RPIXBUF, SOLIDC, NULLC = None, None, None, 0
+    reqs = []
+    known = set(F.values())
+    for (op, sf, mf, df, cover, nearest, bilinear, rot) in sorted(keys):
+        sfc, mfc, dfc = code(sf), code(mf), code(df)
+        if dfc not in known:
+            continue
+        # extended format codes: PIXMAN_solid = FORMAT(0,1,0,0,0,0), PIXMAN_null = 0; others (pixbuf...) skipped
+        solid_code = (1 << 16)
+        src_solid = sfc == solid_code
+        if not src_solid and sfc not in known:
+            continue
+        if mfc == 0:
+            mvar = [0]
+        elif mfc == solid_code:
+            mvar = [SOLID]
+        elif mfc in known:
+            mvar = [mfc]
+        else:
+            continue
+        for m in mvar:
+            variants = ["plain"]
+            if nearest and not src_solid:
+                variants += ["snear", "snear"]
+            if bilinear and not src_solid:
+                variants += ["sbil", "sbil"]
+            if rot and not src_solid:
+                variants += ["rot"]
+            # every variant twice: a wide two-row request (all pixel value classes of the driver occur: zero, ones,
+            # opaque, alpha 0 with colour, alpha 1/254 ...; scalar heads/tails and vector bodies run) and a narrow one
+            for var, size in [(v, z) for v in variants for z in ("wide", "narrow")]:
+                seed = rng.randrange(1, 2 ** 31)
+                dw, dh = (rng.randint(33, 44), 2) if size == "wide" else (rng.choice([1, 2, 3, 5, 7]), 1)
+                w, h = dw, dh
+                dx = dy = 0
+                t = IDENT
+                sfilt, srep = 0, 0
+                sw, sh = dw + 6, dh + 2
+                sx, sy = rng.randint(0, 3), rng.randint(0, 1)
+                if var == "snear" or var == "sbil":
+                    sfilt = 3 if var == "snear" else 4
+                    sc = rng.choice([FX1 // 2, FX1 * 3 // 2, FX1 * 2, 43690])
+                    t = [sc, 0, 0, rng.choice([FX1, sc]), rng.choice([0, FX1 // 2, 3 * FX1]), 0]
+                    srep = rng.choice([0, 1, 2, 3])
+                    sw, sh = rng.choice([(4 * dw + 16, 4 * dh + 8), (7, 3)])
+                elif var == "rot":
+                    sw, sh = 48, 48
+                    t = rng.choice([[0, -FX1, FX1, 0, 47 * FX1, 0], [-FX1, 0, 0, -FX1, 47 * FX1, 47 * FX1],
+                                    [0, FX1, -FX1, 0, 0, 47 * FX1]])
+                mca = 1 if (m == F["a8r8g8b8"] and rng.random() < 0.7) else 0
+                reqs.append(creq(op, SOLID if src_solid else sfc, sw, sh, srep, sfilt, t, m, dw + 6, dh + 2, 0, mca, dfc,
+                                 dw, dh, sx, sy, rng.randint(0, 2), 0, dx, dy, w, h, seed, 0, 0))
+    return reqs
+
+
 def run_config(exe, script, trace, disable, nthreads=0, extra=(), timeout=900, env_extra=None):
     env = dict(os.environ)
     env["PIXMAN_DISABLE"] = disable
@@ -247,11 +337,16 @@ def run_c02(args):
     mc(chk, [("T1", False), ("negloose", True)])
     exe, px = vf.build_driver("drv_dispatch", "plain", cflags=["-pthread"])
     chk.extra["build"] = px["hash"]
-    reqs = gen_requests(rng, 1200 if quick else 8000)
+    configs = CONFIGS_QUICK + ([] if quick else CONFIGS_MORE)
+    reqs = gen_requests(rng, 500 if quick else 8000)
+    directed = table_directed_requests(rng, exe, wd, configs)
+    if quick and len(directed) > 1100:
+        directed = rng.sample(directed, 1100)
+    chk.extra["table_directed_requests"] = len(directed)
+    reqs += directed
     script = os.path.join(wd, "reqs.script")
     open(script, "w").write("\n".join(reqs) + "\n")
     chk.sample({"request_script_lines": reqs[:3]})
-    configs = CONFIGS_QUICK + ([] if quick else CONFIGS_MORE)
     traces = []
     for i, dis in enumerate(configs):
         tr = os.path.join(wd, "cfg%d.ndjson" % i)
